@@ -155,6 +155,22 @@ def run(repo: Repo, rep: Report, tier: str) -> None:
             q = qualname(c)
             rep.check(m.name == "pynetdicom.dul" and q == "DULServiceProvider._is_transport_event", "one-per-call", f"{m.name.replace('pynetdicom.', '')}.{q}", enclosing(c, (ast.stmt,)), "PDUs must be read from one place (the reactor thread), otherwise two readers interleave on one byte stream", mod=m, node=c)
     rep.floor("_read_pdu_data call sites", n_callers, 2)
+    # ... and at most once per pass of the reactor: the loop turns every pass into at most one new event and then
+    # processes one; a second read in the same pass queues events faster than they are consumed, and the
+    # primitive check (which only peeks at the head of its queue) announces the same primitive again on every
+    # pass behind that backlog - a surplus Evt9 / Evt14 finds an empty queue or an undefined state
+    ite = repo.func("dul", "DULServiceProvider._is_transport_event")
+    cfg_t = CFG(ite, body=body_nodoc(ite), may_raise=lambda n_: False)
+
+    def tr_reads(n_, st_):
+        if n_.kind in ("stmt", "test") and any(isinstance(c_.func, ast.Attribute) and c_.func.attr == "_read_pdu_data" for c_ in calls_at(n_)):
+            return [(min(st_ + 1, 2), None)]
+        return [(st_, None)]
+
+    ins_t, _p = typestate(cfg_t, 0, tr_reads)
+    worst = max(ins_t.get(cfg_t.exit.id, {0}) or {0})
+    in_loop = any(isinstance(l_, (ast.For, ast.While)) and any(isinstance(c_, ast.Call) and isinstance(c_.func, ast.Attribute) and c_.func.attr == "_read_pdu_data" for c_ in ast.walk(l_)) for l_ in walk_no_nested(ite))
+    rep.check(worst <= 1 and not in_loop, "one-per-call", "dul.DULServiceProvider._is_transport_event", f"at most {worst} PDU read(s) per call{' (inside a loop)' if in_loop else ''}", "the reactor's transport step reads more than one PDU in one pass: events are queued faster than the loop consumes them (it handles one per pass), the primitive check behind that backlog announces the head of its queue once per pass - the surplus event runs its action on an empty queue (queue.Empty) or in a state where it is undefined, and the provider thread dies", mod=dul, node=ite)
     # and who reads the raw socket
     n_sock = 0
     for m in repo.modules.values():
